@@ -97,7 +97,9 @@ theorem lzf_roundtrip (ops : List LzfOp) (h : lzfWfFrom 0 ops) :
     prevlen, known or unknown (0xFFFF) length) iterates to its entries' values -/
 theorem ziplist_roundtrip (z : ZL) (h : z.wf) : zlAll z.blob = some z.vals := zlAll_blob z h
 
-/-- a listpack blob (every string and integer encoding) yields its entries' values -/
+/-- a listpack blob (every string and integer encoding, ANY number of elements: from
+    65535 on the count field says "unknown" and the elements are walked to the end
+    marker) yields its entries' values -/
 theorem listpack_roundtrip (es : List LPEntry) (h : lpWf es) :
     lpAll (lpBlob es) = some (es.map LPEntry.val) := lpAll_blob es h
 
@@ -183,14 +185,6 @@ theorem next_key_entry (cfg : DCfg) (ls : LState) (k : KeyE) (rest : Bytes)
 /-! ## Values split into several chunks
 
 Only the hash table (`RdbTypeHash`) is ever split (`maxBinEntryBuffer`). -/
-
-/-- the expansion of one hash-table chunk -/
-theorem execCmd_hash_chunk (x : XCfg) (p : PObj) (hr : p.rtype = 4) :
-    execCmd x p = (hashPairs p).map (fun ps => ps.map (fun q => cmdB b!"HSET" [p.key, q.1, q.2])) := by
-  unfold execCmd
-  rw [hr]
-  have : otypeOf 4 = some .hash := by decide
-  simp [this]
 
 /-- `chunked_roundtrip` — for ANY chunking threshold: repeated `Next` over a
     hash-table key item returns chunks which (1) all carry the key, the DB, the
